@@ -23,6 +23,8 @@ CLAIMED = {
          'Accuracy is judged on deliveries observed by the simulator (sound under any delay); crash / restart (stealth) / partition (refuse, blackhole, directed) / heal / stall / slow links, inactivity_ticks 2-5, both auto_fence values'),
  'C08': ('6/C08', 'Liveness after faults stop: crash / restart / healed partitions / process failures placed in every FSM state (triggers on ELECTION, DISTRIBUTION, CONCILIATION), then >= 200 s + synchro_timeout of simulated quiet; every member of every satisfiable component must be in OPERATION (CONCILIATION with USER and a real conflict) with no job pending.',
          'Bounded quiesce phase (stated in evidence); children eventually behave; supvisors_failure_strategy SHUTDOWN and USER-only synchronisation excluded as in the statement'),
+ 'C09': ('6/C09', 'Every stop request at the instant it is pushed: target where the requester sees the process running, no higher stop_sequence process of the application still running / stopping (requester view and truth), same-level processes asked together, decreasing application stop_sequence in ending plans; supvisors.restart / shutdown issued on any instance: at most one supervisor.restart/shutdown per Supervisor incarnation, sent only after its FINAL, the Master reaches FINAL only when everything that ran when the plan was built is stopped or given up, every member instance ends (gone or rebooted); loss of a non-Master during the ending phase.',
+         'Stop behaviours prompt / slow / never (SIGKILL after stopwaitsecs); four known findings (ending publications dropped when the Master exits at once, ending cut short by a consistency failure, processes already STOPPING not waited at both levels), one repaired defect'),
  'C12': ('6/C12', 'At every quiescent instant (no message queued or in flight, no hand-shake in progress, mutual admission, every instance seen RUNNING alive and hand-shaken in its current incarnation) of runs with continuous process activity (autostart/autorestart loops, crashes, direct supervisor.start/stopProcess, application start/stop) while instances join late, crash, restart and partitions heal: each observer\'s get_all_process_info location set and running state must equal what the real Supervisor Subprocess objects of the instances it sees RUNNING report.',
          'Three genuine stale-view mechanisms are recorded as known findings with signatures derived from the observed message history (event not sent / rejected / orphan STOPPING entry); any other mismatch is a violation'),
  'C16': ('6/C16', 'Union of fault kinds (crash, restart, partition, stall, slow link, clock jump, process crash) and of all XML-RPC methods with valid and hostile parameters on diverse configurations (instances of one node knowing different programs): no CRIT record with a traceback, no non-RPCError exception out of an XML-RPC method (incl. TypeError masked by Supervisor), no exception out of a proxy job.',
